@@ -94,13 +94,19 @@ function genGroup(rng) {
   scripts['lib/common'] = 'exports.tag = "S:lib/common"'
   files[a] = { path: a, imports: [], wxs: [{ module: 'm', src: spellRef(rng, a, sa, '.wxs') }], defs: mkDefs(a, ['u']), children: [{ t: 'text', v: M.mv(`[${a}]`, X.mem(X.id('m'), 'tag'), X.mem(X.id('m'), 'dep')) }, { t: 'el', tag: 'q', attrs: [], children: [{ t: 'tref', is: M.sv('u'), data: null }] }] }
   const importTargets = rng.shuffle([a, b, c]).slice(0, rng.range(1, 3))
+  // the same file imported again later (usually spelt differently): "later imports before earlier ones" counts it as the later one
+  if (rng.bool(0.35)) importTargets.push(rng.pick(importTargets))
   const localDefs = rng.bool(0.4) ? mkDefs(main, [rng.pick(['t', 'u'])]) : []
   const children = [{ t: 'text', v: M.sv(`[${main}]`) }]
   for (const n of ['t', 'u', 'v', 'w']) children.push({ t: 'el', tag: 'r', attrs: [{ fam: 'plain', name: 'n', value: M.sv(n) }], children: [{ t: 'tref', is: rng.bool(0.5) ? M.sv(n) : M.ev(X.str(n)), data: null }] })
   for (const inc of rng.shuffle([a, b, c]).slice(0, rng.range(1, 2))) children.push({ t: 'el', tag: 'i', attrs: [], children: [{ t: 'include', src: spellRef(rng, main, inc, '.wxml') }] })
   const sm = 'lib/main_s'
   scripts[sm] = `exports.tag = "S:${sm}"`
-  files[main] = { path: main, imports: importTargets.map((t) => spellRef(rng, main, t, '.wxml')), wxs: [{ module: 'mm', src: spellRef(rng, main, sm, '.wxs') }], defs: localDefs, children: [...children, { t: 'text', v: M.ev(X.mem(X.id('mm'), 'tag')) }] }
+  // an inline module next to the external one, in either order: each name keeps its own module
+  const wxsMain = [{ module: 'mm', src: spellRef(rng, main, sm, '.wxs') }]
+  const inlineMod = rng.bool(0.5)
+  if (inlineMod) { const w = { module: 'mi', code: `exports.tag = "I:${main}"` }; if (rng.bool(0.6)) wxsMain.unshift(w); else wxsMain.push(w) }
+  files[main] = { path: main, imports: importTargets.map((t) => spellRef(rng, main, t, '.wxml')), wxs: wxsMain, defs: localDefs, children: [...children, { t: 'text', v: inlineMod ? M.mv('', X.mem(X.id('mm'), 'tag'), '|', X.mem(X.id('mi'), 'tag')) : M.ev(X.mem(X.id('mm'), 'tag')) }] }
   // the same text node rule as everywhere: no adjacent text nodes
   return { files, scripts, main, layout }
 }
